@@ -4,12 +4,29 @@ From Coq Require Import ZArith NArith List Bool Lia.
 From NV Require Import Lang.Ast Lang.Ref Back.VmCompile Back.VmExec Back.NatSem Back.OpTable.
 Import ListNotations.
 
+Lemma print_elems_alike n l : forall first,
+  (fix go (l : list mval) (first : bool) : list N :=
+     match l with [] => [] | x :: r => (if first then [] else [44;32]%N) ++ mval_print n x ++ go r false end) (map MInt l) first
+  = print_elems first l.
+Proof.
+  induction l as [|z l IH]; intros first; [reflexivity|].
+  cbn [map print_elems]. rewrite IH. destruct n; reflexivity.
+Qed.
+Lemma mval_print_arr n l :
+  mval_print (S n) (MArr l) =
+  [91%N] ++ (fix go (l : list mval) (first : bool) : list N :=
+               match l with [] => [] | x :: r => (if first then [] else [44;32]%N) ++ mval_print n x ++ go r false end) l true
+         ++ [93%N].
+Proof. reflexivity. Qed.
 Lemma print_alike v : mval_print 8 (mval_of v) = print_value v.
-Proof. destruct v; reflexivity. Qed.
+Proof.
+  destruct v; try reflexivity.
+  unfold mval_of, print_value. rewrite mval_print_arr, print_elems_alike. reflexivity.
+Qed.
 
 (* ---- native model (LtoR) = reference ---- *)
 Definition fmap (f : nfault) : fault :=
-  match f with NFAssert => FAssert | NFSigfpe => FDivZero | NFSigfpeOv => FDivOverflow end.
+  match f with NFAssert => FAssert | NFSigfpe => FDivZero | NFSigfpeOv => FDivOverflow | NFOob => FOob end.
 Definition rmap {A B} (g : A -> B) (r : nres A) : res B :=
   match r with
   | NOk a out => Ok (g a) out
@@ -111,10 +128,10 @@ Proof.
       * rewrite <- IHe. bindstep. apply unop_same.
       * destruct o;
           try (rewrite <- IHe; bindstep; rewrite <- IHe; bindstep; apply binop_same).
-        -- (* and *) rewrite <- IHe. bindstep. destruct a as [z|[|]| |s]; try reflexivity.
-           rewrite <- IHe. bindstep. destruct a as [z|b'| |s]; reflexivity.
-        -- (* or *) rewrite <- IHe. bindstep. destruct a as [z|[|]| |s]; try reflexivity.
-           rewrite <- IHe. bindstep. destruct a as [z|b'| |s]; reflexivity.
+        -- (* and *) rewrite <- IHe. bindstep. destruct a as [z|[|]| |s|l]; try reflexivity.
+           rewrite <- IHe. bindstep. destruct a as [z|b'| |s|l]; reflexivity.
+        -- (* or *) rewrite <- IHe. bindstep. destruct a as [z|[|]| |s|l]; try reflexivity.
+           rewrite <- IHe. bindstep. destruct a as [z|b'| |s|l]; reflexivity.
       * (* call *)
         match goal with |- rmap _ (nbind ?na _) = bind ?ra _ =>
           assert (HA : rmap (fun x => x) na = ra) end.
@@ -123,24 +140,35 @@ Proof.
         rewrite <- HA. bindstep. change (nat_find_fn fns f) with (find_fn fns f). destruct (find_fn fns f) as [d|]; [|reflexivity].
         change nat_bind_params with bind_params. destruct (bind_params (fparams d) a) as [en'|]; [|reflexivity].
         rewrite <- IHs. bindstep. destruct a0 as [c e0]. destruct c; reflexivity.
-      * (* cond *) rewrite <- IHe. bindstep. destruct a as [z|[|]| |s]; try reflexivity; apply IHe.
+      * (* cond *) rewrite <- IHe. bindstep. destruct a as [z|[|]| |s|l]; try reflexivity; apply IHe.
+      * (* array literal *)
+        match goal with |- rmap _ (nbind ?na _) = bind ?ra _ =>
+          assert (HA : rmap (fun x => x) na = ra) end.
+        { generalize out. induction es as [|a r IHr]; intros out0; [reflexivity|].
+          rewrite <- IHe. bindstep. rewrite <- IHr. bindstep. reflexivity. }
+        rewrite <- HA. bindstep. destruct (ints_of a); reflexivity.
+      * (* at *)
+        rewrite <- IHe. bindstep. rewrite <- IHe. bindstep.
+        unfold nat_at. destruct a as [z|b| |s|l]; try reflexivity. destruct a0 as [k|b| |s|l']; try reflexivity.
+        destruct (arr_get l k); reflexivity.
+      * (* array_length *) rewrite <- IHe. bindstep. destruct a as [z|b| |s|l]; reflexivity.
     + (* statements *)
       red; intros genv en s out. destruct s; cbn [nat_stmt exec_stmt].
       * reflexivity.
       * rewrite <- IHs. bindstep. destruct a as [c e0]. destruct c; try reflexivity. apply IHs.
       * rewrite <- IHe. bindstep. reflexivity.
       * rewrite <- IHe. bindstep. change nassign with assign. destruct (assign x a en); reflexivity.
-      * rewrite <- IHe. bindstep. destruct a as [z|b| |s']; try reflexivity.
+      * rewrite <- IHe. bindstep. destruct a as [z|b| |s'|l']; try reflexivity.
         rewrite <- IHs. bindstep. destruct a as [c0 e0]. reflexivity.
-      * rewrite <- IHe. bindstep. destruct a as [z|[|]| |s']; try reflexivity.
+      * rewrite <- IHe. bindstep. destruct a as [z|[|]| |s'|l']; try reflexivity.
         rewrite <- IHs. bindstep. destruct a as [c0 e0]. destruct c0; try reflexivity; cbn; apply IHs.
       * rewrite <- IHe. bindstep. rewrite <- IHe. bindstep.
-        destruct a as [z| | |]; destruct a0 as [z0| | |]; try reflexivity. apply IHf.
+        destruct a as [z| | | |]; destruct a0 as [z0| | | |]; try reflexivity. apply IHf.
       * reflexivity.
       * reflexivity.
       * destruct e as [e|]; [|reflexivity]. rewrite <- IHe. bindstep. reflexivity.
       * rewrite <- IHe. bindstep. reflexivity.
-      * rewrite <- IHe. bindstep. destruct a as [z|[|]| |s']; reflexivity.
+      * rewrite <- IHe. bindstep. destruct a as [z|[|]| |s'|l']; reflexivity.
       * rewrite <- IHe. bindstep. reflexivity.
     + (* for *)
       red; intros genv en x i hi body out. cbn [nat_for exec_for].
